@@ -264,8 +264,12 @@ type Builder struct {
 	SignFn func(km refcose.KeyMat, tbs []byte, tag string) []byte
 	// OnTBS, if set, is told every structure that gets signed (where, tbs).
 	OnTBS func(where string, tbs []byte)
+	// PadProt lets the builder pad some protected maps to exactly 23/24/255/256 (PadHuge: 65535/65536) bytes
+	PadProt bool
+	PadHuge bool
 	// statistics
 	EmptyA0 int // h'a0' used for an empty protected header
+	Padded  int // protected maps padded to a head-width boundary
 }
 
 func (b *Builder) sign(km refcose.KeyMat, tbs []byte, tag string) []byte {
@@ -306,7 +310,44 @@ func (b *Builder) protContent(m rc.Val) []byte {
 		}
 		return []byte{}
 	}
-	return rc.Encode(m, b.ch())
+	out := rc.Encode(m, b.ch())
+	if b.Ch != nil && b.Ch.Free && b.PadProt && rapid.IntRange(0, 7).Draw(b.T, "pad-wire-protected") == 0 {
+		if p, ok := padEncodedMap(out, padTarget(b.T, b.PadHuge)); ok {
+			b.Padded++
+			return p
+		}
+	}
+	return out
+}
+
+// padEncodedMap appends a "pad" entry to an already encoded map (whatever
+// head widths and key order the peer chose) so that the result has exactly
+// target bytes.
+func padEncodedMap(enc []byte, target int) ([]byte, bool) {
+	root, err := rc.MParse(enc, false)
+	if err != nil || root.Major != 5 || root.W < 0 {
+		return nil, false
+	}
+	for _, k := range root.Keys {
+		if k.Major == 3 && string(k.Bytes) == "pad" {
+			return nil, false
+		}
+	}
+	root.Keys = append(root.Keys, &rc.M{Major: 3, Bytes: []byte("pad")})
+	val := &rc.M{Major: 2, Bytes: []byte{}}
+	root.Vals = append(root.Vals, val)
+	base := len(root.Enc())
+	for delta := 0; delta <= 8; delta++ {
+		n := target - base - delta
+		if n < 0 {
+			break
+		}
+		val.Bytes = make([]byte, n)
+		if out := root.Enc(); len(out) == target {
+			return out, true
+		}
+	}
+	return nil, false
 }
 
 func (b *Builder) entropyFor(tag string) []byte {
